@@ -560,6 +560,20 @@ def build_doc(defs: dict, bases: dict, roots: dict | None = None) -> dict:
     return {"definitions": d}
 
 
+def doc_of(case: dict) -> dict:
+    """the document of a dotted-names case (family cases of c12_shared carry member shapes of their own)"""
+    if "shared" in case:
+        from . import c12_shared
+
+        return c12_shared.build_doc(case)
+    return build_doc(case["defs"], case["bases"], case.get("roots"))
+
+
+def _body(sch: dict) -> dict:
+    """the part of a definition that declares its own members"""
+    return sch["allOf"][1] if len(sch.get("allOf", ())) > 1 else sch
+
+
 def mod_of(name: str) -> tuple:
     return tuple(name.split(".")[:-1])
 
@@ -1013,17 +1027,17 @@ def expectations(case: dict) -> dict:
     bases: list = []
     objs: list[list[str]] = []
     if "defs" in case:
-        doc = build_doc(case["defs"], case["bases"], case.get("roots"))["definitions"]
+        doc = doc_of(case)["definitions"]
         body = {}
         for nm, sch in doc.items():
-            b = sch["allOf"][1] if "allOf" in sch else sch
+            b = _body(sch)
             body[nm] = _schema_props(b)
             if body[nm] is not None:
                 objs.append(body[nm])
         for nm, sch in doc.items():
             if body[nm] is None:
                 continue
-            b = sch["allOf"][1] if "allOf" in sch else sch
+            b = _body(sch)
             for f, fs in b["properties"].items():
                 if "$ref" in fs:
                     t = body.get(fs["$ref"].rsplit("/", 1)[-1])
@@ -1321,6 +1335,10 @@ def directly_needed(case: dict, fail: dict) -> bool:
 
 
 def observe(case: dict) -> e2e.Result:
+    from . import c12_shared
+
+    c12_shared.install_cell_recorder()  # data-type objects by identity (Model/SharedCell); below the recorder of the names
+    c12_shared.CELLS.clear()
     install_recorder()
     _RECORDS.clear()
     _LEDGER.clear()
@@ -1331,11 +1349,11 @@ def observe(case: dict) -> e2e.Result:
         from .. import importledger
 
         with importledger.recording() as rec:
-            res = e2e.run_generate(build_doc(case["defs"], case["bases"], case.get("roots")), model=case["model"], opts=case["opts"], modular=True)
+            res = e2e.run_generate(doc_of(case), model=case["model"], opts=case["opts"], modular=True)
         if not res.hang:
             _LEDGER.extend(zip(rec.histories, rec.instances))
         return res
-    return e2e.run_generate(build_doc(case["defs"], case["bases"], case.get("roots")), model=case["model"], opts=case["opts"], modular=True)
+    return e2e.run_generate(doc_of(case), model=case["model"], opts=case["opts"], modular=True)
 
 
 def run_tree(case: dict) -> e2e.Result:
@@ -1394,6 +1412,12 @@ def check_case_co(ck: Check, camp, case: dict, pending: list, correspond: bool =
                     "the method exists with the parameters the model of the import names was transliterated from", _RECORDER_BROKEN[0])
     if correspond and records:
         yield from check_records_co(ck, camp, case, records)
+    if correspond:
+        from . import c12_shared
+
+        cells = list(c12_shared.CELLS)
+        c12_shared.CELLS.clear()
+        yield from c12_shared.check_cells_co(ck, camp, case, cells)
     if correspond and ledger:
         from . import c12_collapse
 
@@ -1491,9 +1515,9 @@ def copied_init_involved(case: dict, pred: dict | None, files: dict[str, str], i
     if item.get("reached"):
         mods.add(undot(item["reached"].split(".", 1)[1] if "." in item["reached"] else ""))
     if "defs" in case:
-        doc = build_doc(case["defs"], case["bases"], case.get("roots"))["definitions"]
+        doc = doc_of(case)["definitions"]
         for nm, sch in doc.items():
-            b = sch["allOf"][1] if "allOf" in sch else sch
+            b = _body(sch)
             if _schema_props(b) == item.get("target"):
                 mods.add(mod_of(nm))
     else:
@@ -1889,13 +1913,14 @@ def run(ck: Check) -> None:
     campaign_module_path(ck, 400 if quick else 4000)
     campaign_aliases(ck, 400 if quick else 4000)
     campaign_e2e(ck, 200 if quick else 3000, 30 if quick else 400, 3 if quick else 4, n_clash=120 if quick else 1500)
-    from . import c12_collapse, c12_crossref, c12_trees
+    from . import c12_collapse, c12_crossref, c12_shared, c12_trees
 
     c12_crossref.campaign(ck, 80 if quick else 2000)
     c12_collapse.campaign_family(ck, 60 if quick else 1500)
+    c12_shared.campaign_family(ck, 30 if quick else 1500)
     c12_trees.campaign_setter(ck, 400 if quick else 4000)
     c12_trees.campaign_rich_trees(ck, 150 if quick else 2500)
-    ck.search_hooks += [c12_crossref.search, c12_collapse.search_family, search_from_disagreements, c12_trees.search_rich_trees, search_module_names, search_same_short_name]
+    ck.search_hooks += [c12_shared.search_family, c12_crossref.search, c12_collapse.search_family, search_from_disagreements, c12_trees.search_rich_trees, search_module_names, search_same_short_name]
     known_findings(ck)
 
 
